@@ -102,7 +102,7 @@ def _norm_cases(draw, tier):
     d = draw(gen.spline(max_p=4, max_extra=4, unclamped="maybe", affine_range=True, normalize=True, vol_max_p=2, vol_max_extra=2))
     pdim = len(d["degree"])
     return {"defn": d, "params": draw(st.lists(gen.params(pdim), min_size=1, max_size=3)), "order": draw(st.integers(0, max(d["degree"]) + 1)),
-            "n": draw(st.integers(2, 9 if pdim < 3 else 4)), "op": draw(st.sampled_from(["none", "insert", "refine", "split", "tessellate", "sample_size", "rotate"])),
+            "n": draw(st.integers(2, 9 if pdim < 3 else 4)), "op": draw(st.sampled_from(["none", "insert", "insert", "refine", "split", "tessellate", "sample_size", "rotate"])),
             "ins": draw(ins_desc()), "k": draw(st.integers(0, 2))}
 
 
@@ -198,6 +198,19 @@ def check_normalize(case, ctx):
             ins = (["in"] + list(case["ins"][1:])) if case["ins"][0] in ("other", "near", "decimal", "again", "within") else case["ins"]
             pickN = pick_insert(degs[k], build.kvs_of(N)[k], build.sizes_of(N)[k], ins)
             pickF = pick_insert(degs[k], build.kvs_of(Fo)[k], build.sizes_of(Fo)[k], ins)
+            zero_in = [j for j in range(pd) if build.kvs_of(Fo)[j][degs[j]] < 0.0 < build.kvs_of(Fo)[j][build.sizes_of(Fo)[j]]]
+            if zero_in:
+                k = zero_in[0]
+                pickN = pick_insert(degs[k], build.kvs_of(N)[k], build.sizes_of(N)[k], ins)
+                pickF = pick_insert(degs[k], build.kvs_of(Fo)[k], build.sizes_of(Fo)[k], ins)
+            kvF_ = build.kvs_of(Fo)[k]
+            if zero_in:
+                # the parameter 0.0 lies inside the original range: insert exactly there (and at its image in the normalised twin)
+                s0 = sum(1 for x in kvF_ if abs(x) <= 1e-9)
+                if s0 < degs[k]:
+                    pickF = (0.0, s0, 1)
+                    pickN = ((0.0 - aff[k][0]) / aff[k][1], s0, 1)
+                    ctx.label("insertion-at-parameter-zero")
             if pickN is None or pickF is None or pickN[1:] != pickF[1:]:
                 raise Skip("no admissible insertion")
             for o, pk in ((N, pickN), (Fo, pickF)):
